@@ -11,6 +11,7 @@ Runnable as a script (`sugar_model.py /dev/stdin`) so that the subprocess
 backends of cspuz execute it through their real pipe code.  Environment:
   SUGAR_MODEL_PICK=<k>   answer-finder mode: return the k-th model (mod count)
   SUGAR_MODEL_ORDER=<k>  permutation index for the order of reply lines
+  SUGAR_MODEL_STDERR=1   write a diagnostic line to stderr before the reply
 """
 
 import itertools
@@ -371,6 +372,10 @@ if __name__ == "__main__":
 
     path = sys.argv[1] if len(sys.argv) > 1 else "/dev/stdin"
     data = open(path).read()
+    if os.environ.get("SUGAR_MODEL_STDERR") == "1":
+        # a diagnostic on stderr before the reply, as a JVM prints ("Picked up _JAVA_OPTIONS: ..."): not part of the reply
+        sys.stderr.write("Picked up _JAVA_OPTIONS: -Xmx1g (simulated diagnostic)\n")
+        sys.stderr.flush()
     sys.stdout.write(
         solve_text(data, int(os.environ.get("SUGAR_MODEL_PICK", "0")), int(os.environ.get("SUGAR_MODEL_ORDER", "0")))
     )
